@@ -43,6 +43,11 @@ pub enum Event {
         ok: bool,
     },
     CallEnter,
+    /// a scope frame is about to be built (before the depth check)
+    Frame {
+        height: usize,
+        root: bool,
+    },
     TailIteration {
         iteration: usize,
     },
